@@ -245,6 +245,8 @@ def smooth_case(rng, name, nmax=400):
             kind = "random"   # weights 16:4:1 cancel against the window's negative lobes now and then (finding P)
         if kind == "zeros-sparse":
             w = [0.0 if rng.random() < 0.1 else rng.uniform(0.1, 1) for _ in range(n)]
+            if not any(w):
+                w[rng.randrange(n)] = 1.0
         elif kind == "positive-wide":
             w = [rng.choice([4.0, 1.0, 0.25, 0.25, 0.25]) for _ in range(n)]
         else:
@@ -519,7 +521,9 @@ def judge(case, impl, resp):
     order2_bad = "argsort2_mismatch" in spec
     if order2_bad:
         spec.remove("argsort2_mismatch")
-    if model_err is not None:
+    if model_err == "geometry":
+        disagree.append("window half-width: harness (real _width2wing) != model")
+    elif model_err is not None:
         disagree.append(f"model raises {model_err}, impl returns a value")
     elif op == "loc":
         if not _close(impl["v"], out):
